@@ -60,6 +60,12 @@ class _Continue(Exception):
 OPAQUE = object()
 
 
+class DefaultDict(dict):
+    def __init__(self, factory):
+        super().__init__()
+        self.factory = factory
+
+
 class ObjEval:
     def __init__(self, pid: list, methods: dict | None = None, budget: int = 5000):
         self.pid = list(pid)
@@ -68,6 +74,23 @@ class ObjEval:
         self.methods = methods or {}      # other methods of the class, folded when called on self / a node
         self.steps = 0
         self.budget = budget
+
+    @staticmethod
+    def _key(k):
+        if isinstance(k, (int, str, bool)) or k is None:
+            return k
+        if isinstance(k, NodeV):
+            return k
+        raise Unsupported("dict key")
+
+    def run_free(self, fn, args: dict):
+        """a module-level function (no self)"""
+        env = dict(args)
+        try:
+            self.block(fn.body, env)
+        except _Ret as r:
+            return r.v
+        return None
 
     # ------------------------------------------------------------- primitives
     def prim(self, v: NodeV, name: str, args):
@@ -184,7 +207,9 @@ class ObjEval:
         elif isinstance(t, ast.Subscript):
             base = self.ev(t.value, env)
             i = self.ev(t.slice, env)
-            if isinstance(base, list) and isinstance(i, int):
+            if isinstance(base, dict):
+                base[self._key(i)] = v
+            elif isinstance(base, list) and isinstance(i, int):
                 base[i] = v
             else:
                 raise Unsupported("subscript store")
@@ -219,6 +244,8 @@ class ObjEval:
             v = self.ev(e.value, env)
             env[e.target.id] = v
             return v
+        if isinstance(e, ast.Dict):
+            return {self._key(self.ev(k, env)): self.ev(v, env) for k, v in zip(e.keys, e.values)}
         if isinstance(e, (ast.List, ast.Tuple)):
             out = []
             for x in e.elts:
@@ -292,6 +319,12 @@ class ObjEval:
                 if not -len(base) <= i < len(base):
                     raise Unsupported("index out of range")
                 return base[i]
+            if isinstance(base, DefaultDict):
+                return base.setdefault(self._key(i), base.factory())
+            if isinstance(base, dict):
+                if self._key(i) not in base:
+                    raise Unsupported("missing dict key")
+                return base[self._key(i)]
             raise Unsupported("subscript")
         if isinstance(e, ast.Attribute):
             base = self.ev(e.value, env)
@@ -328,9 +361,26 @@ class ObjEval:
                 return Built(last, ids)
             raise Unsupported("constructor argument")
         if isinstance(e.func, ast.Name):
-            args = [self.ev(a, env) for a in e.args]
-            if last == "len" and len(args) == 1 and isinstance(args[0], (list, tuple)):
+            args = []
+            for a in e.args:
+                if isinstance(a, ast.Starred):
+                    args.extend(self.ev(a.value, env))
+                else:
+                    args.append(self.ev(a, env))
+            if last == "len" and len(args) == 1 and isinstance(args[0], (list, tuple, dict)):
                 return len(args[0])
+            if last == "zip" and all(isinstance(a, (list, tuple)) for a in args):
+                return [list(t) for t in zip(*args)]
+            if last == "defaultdict" and len(e.args) == 1 and isinstance(e.args[0], ast.Name) and e.args[0].id in ("list", "int"):
+                return DefaultDict(list if e.args[0].id == "list" else int)
+            if last == "dict" and not args:
+                return {}
+            if last == "enumerate" and len(args) == 1 and isinstance(args[0], (list, tuple)):
+                return [[i, x] for i, x in enumerate(args[0])]
+            if last in ("sum",) and len(args) == 1 and isinstance(args[0], list):
+                return sum(args[0])
+            if last in ("any", "all") and len(args) == 1 and isinstance(args[0], list):
+                return {"any": any, "all": all}[last](self.truth(x) for x in args[0])
             if last in ("list", "tuple") and len(args) == 1 and isinstance(args[0], (list, tuple, range)):
                 return list(args[0])
             if last == "reversed" and len(args) == 1 and isinstance(args[0], (list, tuple)):
@@ -349,6 +399,25 @@ class ObjEval:
                     params = [a.arg for a in m.args.args if a.arg != "self"]
                     return self.run(m, recv, dict(zip(params, args)))
                 return self.prim(recv, last, args)
+            if isinstance(recv, dict):
+                if last == "get":
+                    k = self._key(args[0])
+                    return recv[k] if k in recv else (args[1] if len(args) > 1 else None)
+                if last == "setdefault" and len(args) == 2:
+                    return recv.setdefault(self._key(args[0]), args[1])
+                if last == "items" and not args:
+                    return [[k, v] for k, v in recv.items()]
+                if last == "keys" and not args:
+                    return list(recv.keys())
+                if last == "values" and not args:
+                    return list(recv.values())
+                if last == "pop" and args:
+                    k = self._key(args[0])
+                    if k in recv:
+                        return recv.pop(k)
+                    if len(args) > 1:
+                        return args[1]
+                    raise Unsupported("pop of a missing key")
             if isinstance(recv, list):
                 if last == "append" and len(args) == 1:
                     recv.append(args[0])
